@@ -139,19 +139,45 @@ __CPROVER_ensures(__CPROVER_return_value == 0)                        /* a liste
                            (gh_S_excl == 1 ==> *gh_S_slot == __CPROVER_loop_entry(*gh_S_slot)))
 #define SUBSCRIBED_ONCE(handle, fn) (gh_n_push == 1 && gh_push_handle == (void *)(handle) && gh_push_fn == (void *)(fn) && gh_push_next == gh_push_seen && \
    (gh_node_own == OWN_CHAIN || gh_node_own == OWN_WALK))             /* complete node published by exactly one RMW, linked to the value it replaced (no listener cut off) */
+/* Cross-thread subscription: from the instant the push succeeds the emitting thread may detach the chain, resume the coroutine, and the
+ * coroutine may run to its end - the frame, and the emitter inside it, are then GONE while await_suspend is still returning on this thread.
+ * The unit hook below lets exactly that happen (nondeterministically) right after the push: the emitter object is freed, so anything
+ * await_suspend touches of `this` after a successful subscription is a use-after-free found by CBMC. */
+int gh_em_connected; int gh_node_freed;
+/* awaiter::subscribe(chain) under its own contract (unit aw_subscribe): exactly one push of the own node, linked to the value replaced */
+#ifdef CV_HAS_aw_subscribe_u
+void aw_subscribe(AWT *this_, ATOMAW *chain)
+__CPROVER_requires(cv_exc_pending == 0 && gh_S_slot == (void **)&chain->_M_b._M_p && gh_S_excl == 0 && gh_my_node == (void *)this_ && gh_node_own == OWN_ME && gh_n_push == 0 && this_ != 0)
+__CPROVER_requires(gh_push_handle == (void *)this_->_handle_addr && gh_push_fn == (void *)this_->_resume_fn)        /* logical variables: the node's payload */
+__CPROVER_assigns(this_->_next, *gh_S_slot, PROTS_GHOSTS)
+__CPROVER_ensures(cv_exc_pending == 0 && gh_n_push == 1 && gh_n_slot_rmw == __CPROVER_old(gh_n_slot_rmw) + 1 && gh_n_detach == __CPROVER_old(gh_n_detach))
+__CPROVER_ensures(gh_push_handle == (void *)this_->_handle_addr && gh_push_fn == (void *)this_->_resume_fn && gh_push_next == gh_push_seen && (gh_node_own == OWN_CHAIN || gh_node_own == OWN_WALK))
+;
+#endif
+/* the same contract in operational form, for the cross-thread unit below: the push, then - at once - what the emitting thread may do */
+#ifdef CV_HAS_aw_subscribe_abs
+void aw_subscribe_abs(AWT *this_, ATOMAW *chain) {
+  __CPROVER_assert(gh_S_slot == (void **)&chain->_M_b._M_p && gh_my_node == (void *)this_ && gh_node_own == OWN_ME && gh_n_push == 0, "awaiter::subscribe: precondition of its contract");
+  protS_env();
+  void *cur = *gh_S_slot; this_->_next = (AWT *)cur; CV_S_NODE_SNAPSHOT(this_);
+  gh_node_own = OWN_CHAIN; gh_seen = cur; gh_push_seen = cur; gh_n_slot_rmw++; gh_n_push++; *gh_S_slot = (void *)this_;
+  if (gh_S_role == S_ROLE_LISTEN && gh_emit_obj != 0 && nondet_bool()) {      /* detached, resumed, coroutine finished: the emitter is gone */
+    protS_env_detach(); gh_node_freed = 1; free(gh_emit_obj); } }
+#endif
 #ifdef CV_HAS_em_suspend
 cv_i1 em_suspend(EMIT *this_, cv_i8 *h)
 __CPROVER_requires(EM_PRE(this_) && gh_S_role == S_ROLE_LISTEN && gh_sg_shared == 1 && gh_my_node == (void *)EM_NODE(this_) && gh_node_own == OWN_ME && h != 0)
-__CPROVER_assigns(__CPROVER_object_whole(this_), __CPROVER_object_whole(gh_sg_blk), PROTS_GHOSTS, RC_GHOSTS, SG_GHOSTS)
-__CPROVER_frees(gh_sg_blk)
+__CPROVER_requires(gh_em_connected == (EM_CONNECTED(this_) ? 1 : 0) && gh_node_freed == 0)
+__CPROVER_assigns(__CPROVER_object_whole(this_), __CPROVER_object_whole(gh_sg_blk), PROTS_GHOSTS, RC_GHOSTS, SG_GHOSTS, gh_node_freed)
+__CPROVER_frees(gh_sg_blk, this_)
 __CPROVER_ensures(cv_exc_pending == 0 && __CPROVER_return_value <= 1 && gh_sg_locks == 1)
 __CPROVER_ensures(__CPROVER_return_value == (gh_sg_lock_ok ? 1 : 0))                      /* suspends (subscribes) iff the state was alive at the instant of lock() */
 __CPROVER_ensures(__CPROVER_old(gh_sg_blk->cb.strong) == 0 ==> __CPROVER_return_value == 0)   /* awaiting a disconnected emitter never suspends */
-__CPROVER_ensures(!EM_CONNECTED(this_) ==> __CPROVER_return_value == 0)
+__CPROVER_ensures(!gh_em_connected ==> __CPROVER_return_value == 0)
 __CPROVER_ensures(__CPROVER_return_value == 1 ==> SUBSCRIBED_ONCE(h, 0))
-__CPROVER_ensures(__CPROVER_return_value == 0 ==> (gh_n_push == 0 && gh_node_own == OWN_ME && gh_n_slot_rmw == __CPROVER_old(gh_n_slot_rmw)))
+__CPROVER_ensures(__CPROVER_return_value == 0 ==> (gh_n_push == 0 && gh_node_own == OWN_ME && gh_n_slot_rmw == __CPROVER_old(gh_n_slot_rmw) && gh_node_freed == 0))
 __CPROVER_ensures(gh_sg_mine_s == 0 && gh_sg_mine_w == __CPROVER_old(gh_sg_mine_w))      /* the temporary strong reference is given back */
-/* if that reference had become the last one, this thread ran ~state: the chain (with this listener in it) was released, no value */
+/* if that reference had become the last one, this thread ran ~state: the chain was released, no value */
 __CPROVER_ensures(gh_sg_disposed <= 1 && (gh_sg_disposed == 1 ==> (__CPROVER_return_value == 1 && gh_n_detach == 1 && gh_rc_calls == 1 && gh_rc_chain == gh_detached && gh_det_curval == 0 && gh_node_own == OWN_WALK)))
 __CPROVER_ensures(gh_sg_disposed == 0 ==> (gh_n_detach == 0 && gh_rc_calls == 0))
 __CPROVER_ensures(gh_allocs == __CPROVER_old(gh_allocs) && gh_del_calls == 0)
